@@ -920,12 +920,30 @@ func (nz *Normalizer) siteEdit(fset *token.FileSet, s *nfSite) (textEdit, map[st
 			return textEdit{}, nil, "method call form"
 		}
 		selInfo := info.Selections[sel]
-		if selInfo == nil || len(selInfo.Index()) != 1 {
-			return textEdit{}, nil, "promoted method"
+		if selInfo == nil || len(selInfo.Index()) < 1 {
+			return textEdit{}, nil, "method selection"
 		}
 		rt := sig.Recv().Type()
 		xt := info.TypeOf(sel.X)
 		rtxt := text(src, sel.X)
+		// a method promoted from an embedded field: spell the field path out (`r.expireAt(…)` is `r.sessionTimeouts.expireAt(…)`)
+		if idx := selInfo.Index(); len(idx) > 1 {
+			if !isSimpleExpr(sel.X) {
+				return textEdit{}, nil, "promoted method on a non-trivial receiver"
+			}
+			for _, fi := range idx[:len(idx)-1] {
+				t := xt
+				if pt, isP := t.Underlying().(*types.Pointer); isP {
+					t = pt.Elem()
+				}
+				st, isS := t.Underlying().(*types.Struct)
+				if !isS || fi >= st.NumFields() {
+					return textEdit{}, nil, "promoted method path"
+				}
+				rtxt += "." + st.Field(fi).Name()
+				xt = st.Field(fi).Type()
+			}
+		}
 		if !isSimpleExpr(sel.X) {
 			// the receiver expression is evaluated first in both forms: bind it to a temporary up front
 			if _, isCall := ast.Unparen(sel.X).(*ast.CallExpr); isCall {
